@@ -12,9 +12,6 @@ VERIF = os.path.dirname(os.path.dirname(os.path.abspath(__file__)))
 CLAIMED: dict = {}
 
 NOT_APPLICABLE = {
-    "C10": "Inequalities/orthogonality to tolerance over arbitrary float tensors (clamps, "
-           "Gram-Schmidt, normalisation): no state, schedule or exact discrete sub-domain for a "
-           "TLA+ model to decide; see DESIGN.md section 5.",
 }
 
 # properties whose check is not built yet (kept current as the work proceeds)
